@@ -10,7 +10,7 @@ from vfacts import strip, walk, method_name, root_path, is_node, enclosing
 from .prov import var_table, local_sources
 
 RULE = 'MERGE'
-FLOOR = 2
+FLOOR = 1
 ANCHORS = ['Antichain2Cv2::lookup']
 
 
